@@ -298,7 +298,8 @@ def r2(cx, rule):
             c, adaptors = hit
             plain = all(re.search(r"::iter(_mut)?$|::into_iter$|Deref(Mut)?>::deref(_mut)?$", a) for a in adaptors)
             # guards of the handler call: only loop conditions, `?`, and is_empty tests of the same containers
-            gs = [g for g in guards_of(m, f, c.b, mode="alias") if not g.neutral]
+            from vlib.model import conditions_of
+            gs = [g for g in conditions_of(m, f, c.b, mode="alias") if not g.neutral]
             extra = []
             for g in gs:
                 r = g.root
